@@ -1323,7 +1323,7 @@ Section Main.
     Let ps := pairs cl fs m.
 
     Lemma pairs_ok : pairs_spec cl fs m ps.
-    Proof. apply (class_pairs cl fs m Hwc Hnames). Qed.
+    Proof. apply (class_pairs_fits c u ok _ _ cl fs m Hwc Hnames Hfe). Qed.
 
     Lemma evar_elem : m_text m = None -> forall var, In var evars -> is_elem_var var.
     Proof. intros Htx var Hv. destruct (wf_class_evar m var Hwc Hv) as [[Hw Hi]|[Ht _]]; [split; assumption|congruence]. Qed.
@@ -1803,7 +1803,7 @@ Section Main.
       assert (Hpairs : pairs cl fs m = emit1 fs tv).
       { rewrite (pairs_plain cl fs m Hwc Hnames), Hevars; [cbn [flat_map]; apply app_nil_r|].
         intros var Hv. rewrite Hevars in Hv. destruct Hv as [<-|[]].
-        destruct (wf_text_inv tv Hwt) as [_ [Hc _]]. destruct (var_common_inv tv Hc) as [_ [_ [_ [_ [_ [_ [_ [Hs _]]]]]]]]. exact Hs. }
+        apply (wf_text_noseq tv Hwt). }
       assert (Hkf : flat_map (fun vv => e_field (eobj n) (fst vv) (snd vv)) (pairs cl fs m) = e_field (eobj n) tv (field_of fs tv)).
       { rewrite Hpairs. unfold emit1. destruct (field_of fs tv); cbn [flat_map fst snd]; rewrite ?app_nil_r; reflexivity. }
       rewrite Hkf in Hk.
@@ -1831,7 +1831,7 @@ Section Main.
            [apply Hitems; exact He|destruct He as [<-|[]]; eauto|apply Hitems; exact He]). }
       destruct (pairs_run cl fs m Hwc Hmc n Hfe IH Hnest attrs ns (length objs) (pairs cl fs m) kes [] [] Q objs W
                   (PEnd (elem_name qn cl) text tail :: rest) Htx Hpf
-                  (ps_once _ _ _ _ (class_pairs cl fs m Hwc Hnames))
+                  (ps_once _ _ _ _ (class_pairs_fits c u ok _ _ cl fs m Hwc Hnames Hfe))
                   (fun _ _ _ => conj (fun Hi => Hi) (fun Hi => Hi)) Hkids) as [asg' Hrun].
       unfold enW in Hrun. rewrite Hrun. apply run_step. cbn [app].
       apply (end_complex cl fs m Hwc Hmc Hnames Hfa n Hfe attrs ns (length objs) asg' (elem_name qn cl) text tail Q objs W Htx eq_refl Hra Htl).
